@@ -896,6 +896,9 @@ func (p mpkt) wire(salt int) []byte {
 		}
 		if n != "." {
 			for _, l := range strings.Split(strings.TrimSuffix(n, "."), ".") {
+				// \x01 stands for a literal '.' INSIDE a label (DNS-SD instance names such as
+				// "Office 2.1 Printer", RFC 6763 4.3)
+				l = strings.ReplaceAll(l, "\x01", ".")
 				msg = append(msg, byte(len(l)))
 				msg = append(msg, l...)
 			}
@@ -1051,6 +1054,12 @@ func genSmallPkts(r *Rng, c *Ctx) []mpkt {
 				rec.kind, rec.addr = "6", r.pick([]string{"fe80::1", "fd00::a", "2001:db8::1", "10.0.0.1" /* ::ffff:10.0.0.1 prints as IPv4 */})
 			default:
 				rec.kind = "t"
+				if r.Chance(50) {
+					// a service-instance owner name with a dot inside its first label, beside the host's
+					// address records in the same packet: the address records must still be learned
+					rec.name = r.pick([]string{"Office 2\x011 Printer._ipp._tcp.local.", "v1\x012._http._tcp.local.", "a\x01b.local."})
+					c.Stat("rec:dotted-label-owner")
+				}
 			}
 			c.Stat(fmt.Sprintf("rec:sec%d-%s", rec.sec, rec.kind))
 			p.recs = append(p.recs, rec)
